@@ -1,3 +1,16 @@
+//! vf-kernel: checks that drive internal engine components directly (no transactions):
+//! the fee reserve (C06 part a), the transaction tracker ring (C07 part a), Track (C12) and
+//! SubstateLocks (C13).
+
+pub mod dec;
+pub mod c06;
+pub mod c07;
+pub mod c12;
+pub mod c13;
+
+pub use c06::c06_reserve_part;
+pub use c07::c07_ring_part;
+
 pub fn checks() -> Vec<vf_core::Check> {
-    vec![]
+    vec![c06::check(), c07::check(), c12::check(), c13::check()]
 }
